@@ -18,11 +18,27 @@ func checkC14(e *Engine, r *Report) {
 	r.Rules = []string{
 		"R4 nil-safety for repository-specific nil sources, over every function reachable from an NRI handler of the resource manager (incl. both policy backends) and of the memory-qos, memtierd and sgx-epc plugins: S1 first result of a comma-ok call/lookup/type-assertion used while ok is false or unchecked; S2 first result of a (value, error) call used on its error path; S3 optional sub-messages of NRI messages (raw field loads and results of nil-safe getters) dereferenced without a nil test on the same access path (fresh stores and `ensure…` helpers establish non-nil); S4 nilable plugin configuration; S5 elements of unmarshalled pointer collections; P parameters that callers may pass nil (UpdateContainer's resources) — inter-procedural through 2 levels of parameter summaries",
 		"S7 explicit process exits: every panic / log.Fatal / log.Panic / os.Exit / Must* call reachable from a handler is in the reviewed table",
+		"S6 (shared with C19) match expressions: for every operator under which Evaluate indexes Values[k], Validate rejects expressions with too few values, every Evaluate call site takes validated or internally built expressions, and an expression built in code gets as many values as its operator reads",
 	}
 	r.NotDecided = []string{"integer overflow, unbounded recursion or allocation", "panics inside third-party packages on odd inputs", "slice bounds with non-constant indices",
 		"nil values from origins other than the listed sources (assumed non-nil)"}
 	r.Assumptions = []string{"well-formed NRI events carry non-nil top-level pod and container messages", "method receivers of the plugin objects are non-nil"}
 
+	// the match expressions evaluated on the request path index Values[k]: that is safe because expressions are
+	// validated or built with the arity their operator reads — the S6 obligations of the C19 check, adopted here
+	{
+		sub := NewReport(e, "C19")
+		checkC19(e, sub)
+		n := 0
+		for _, o := range sub.Obls {
+			if strings.HasPrefix(o.Key, "S6:") {
+				n++
+				cp := *o
+				r.add(&cp)
+			}
+		}
+		r.MinInstances("expression-arity obligations (S6, shared with C19)", n, 4)
+	}
 	c := newNilCtx(e)
 	pluginTypes := map[*types.Named]bool{}
 	for _, p := range c14PluginPkgs {
